@@ -116,6 +116,8 @@ func EndBlocker(ctx sdk.Context, k keeper.Keeper) {
 			}
 
 			if len(providers) > 0 && len(providers) >= int(requestContext.ResponseThreshold) {
+				// charge exactly the fees that the requests of this batch record (discounts applied)
+				totalPrices = k.GetTotalServiceFees(ctx, requestContext.ServiceName, providers, consumer)
 				if err := k.DeductServiceFees(ctx, consumer, totalPrices); err != nil {
 					k.OnRequestContextPaused(
 						ctx,
